@@ -242,6 +242,118 @@ pub fn check(ctx: &mut Ctx) {
             F::Disagree(d) => ctx.case("model", &key, "fdis", serde_json::json!({"what": d, "case": info})),
         }
     }
+    check_large(ctx);
+}
+
+/// inputs large enough to cross the size thresholds an implementation may have (small-set or
+/// small-vector optimisations, buffer sizes): many distinct values per group, some occurring once
+fn check_large(ctx: &mut Ctx) {
+    let n = ctx.budget(160, 4000);
+    for _ in 0..n {
+        let mut r = ctx.rng.fork();
+        let rows = *r.pick(&[15usize, 16, 17, 31, 32, 33, 34, 40, 63, 64, 65, 66, 100, 127, 128, 129, 130, 255, 256, 257, 300, 511, 512, 513, 600]);
+        let ngroups = 1 + r.below(3);
+        let dup_pct = *r.pick(&[0usize, 10, 50, 90]);
+        // values: mostly fresh, some repeated; typed variety (ints, strings, floats)
+        let mut docs: Vec<String> = vec![];
+        let mut fresh = 0u64;
+        let mut seen: Vec<String> = vec![];
+        for i in 0..rows {
+            let g = ["a", "b", "c"][r.below(ngroups)];
+            let u = if !seen.is_empty() && r.chance(dup_pct) {
+                r.pick(&seen).clone()
+            } else {
+                fresh += 1;
+                let v = match r.below(3) {
+                    0 => format!("{}", fresh),
+                    1 => format!("\"v{}\"", fresh),
+                    _ => format!("{}.5", fresh),
+                };
+                seen.push(v.clone());
+                v
+            };
+            docs.push(format!("{{\"k\":\"{}\",\"u\":{},\"n\":{},\"i\":{}}}", g, u, r.range(-1000, 1000), i));
+        }
+        let by = if r.chance(70) { " by k" } else { "" };
+        let q = format!("* | json | count as c, count_distinct(u) as d, sum(n) as s, min(n) as lo, max(n) as hi{}", by);
+        let keys: Vec<String> = if by.is_empty() { vec![] } else { vec!["k".into()] };
+        let join = |ds: &[String]| -> Vec<u8> { ds.iter().flat_map(|d| d.bytes().chain(std::iter::once(b'\n'))).collect() };
+        let input = join(&docs);
+        let key = ckey(&q, &input);
+        let info = serde_json::json!({"query": q, "rows": rows, "distinct_values": seen.len(), "input": if input.len() < 6000 { String::from_utf8_lossy(&input).to_string() } else { format!("({} bytes; regenerate from the seed)", input.len()) }, "input_hex": crate::enc::hexb(&input)});
+        let base = imp::run(&q, &input, "json", 20);
+        let t0 = match table_of(&base.stdout, &keys) {
+            Some(t) if base.compiled && base.panicked.is_none() => t,
+            _ => {
+                ctx.case("large", &key, "viol", serde_json::json!({"class": "", "what": "aggregation did not produce a table", "case": info}));
+                continue;
+            }
+        };
+        // reference: distinct values and row counts per group, computed here
+        let mut want: BTreeMap<String, (i64, std::collections::BTreeSet<String>)> = BTreeMap::new();
+        for d in &docs {
+            let g = if by.is_empty() { "[]".to_string() } else { format!("{:?}", vec![canon::normalize(&J::Str(d[6..7].to_string()))]) };
+            let u = d.split("\"u\":").nth(1).unwrap().split(",\"n\"").next().unwrap().to_string();
+            let e = want.entry(g).or_default();
+            e.0 += 1;
+            e.1.insert(u);
+        }
+        let mut bad: Option<String> = None;
+        for (g, (c, set)) in &want {
+            match t0.get(g) {
+                Some(cells) => {
+                    if cells.get("c") != Some(&J::Int(*c)) || cells.get("d") != Some(&J::Int(set.len() as i64)) {
+                        bad = Some(format!("group {}: count {:?} (true {}), count_distinct {:?} (true {})", g, cells.get("c"), c, cells.get("d"), set.len()));
+                    }
+                }
+                None => bad = Some(format!("group {} missing from the result ({:?})", g, t0.keys())),
+            }
+        }
+        // permutations, exact
+        if bad.is_none() {
+            for variant in 0..6 {
+                let mut p = docs.clone();
+                match variant {
+                    0 => p.reverse(),
+                    1 => p.sort(),
+                    2 => {
+                        // values that occur once go last
+                        let cnt = |d: &String| docs.iter().filter(|e| e.split("\"u\":").nth(1).unwrap().split(",\"n\"").next() == d.split("\"u\":").nth(1).unwrap().split(",\"n\"").next()).count();
+                        if rows <= 300 {
+                            p.sort_by_key(|d| std::cmp::Reverse(cnt(d)));
+                        } else {
+                            r.shuffle(&mut p);
+                        }
+                    }
+                    _ => r.shuffle(&mut p),
+                }
+                let rp = imp::run(&q, &join(&p), "json", 20);
+                match table_of(&rp.stdout, &keys) {
+                    Some(tp) if tp == t0 => {}
+                    Some(tp) => {
+                        let g = t0.iter().find(|(g, c)| tp.get(*g) != Some(c)).map(|x| x.0.clone()).unwrap_or_default();
+                        bad = Some(format!("permutation {} of the input lines changes the result: group {} {:?} vs {:?}", variant, g, t0.get(&g), tp.get(&g)));
+                        break;
+                    }
+                    None => {
+                        bad = Some("permuted run is not a table".into());
+                        break;
+                    }
+                }
+            }
+        }
+        if let Some(w) = bad {
+            ctx.case("large", &key, "viol", serde_json::json!({"class": "", "what": w, "case": info}));
+            continue;
+        }
+        ctx.case("large", &key, "pass", serde_json::json!({"query": q, "rows": rows, "distinct_values": seen.len()}));
+        let c = run_both(ctx, &q, &input);
+        match compare(&c, true) {
+            F::Agree => ctx.case("model", &key, "pass", serde_json::json!({"query": q, "rows": rows})),
+            F::Skip(w) => ctx.case("model", "", "skip", serde_json::json!({"why": w.split(':').next().unwrap_or("").to_string()})),
+            F::Disagree(d) => ctx.case("model", &key, "fdis", serde_json::json!({"what": d, "case": info})),
+        }
+    }
 }
 
 fn merge_eq(kind: Kind, part: Option<&J>, whole: Option<&J>) -> bool {
